@@ -276,6 +276,44 @@ def binding_facts(repo: Path) -> dict:
 	return f
 
 
+def query_flow_facts(repo: Path) -> dict:
+	"""`gambit.query.query`: which distances each result item is made of"""
+	f = dict.fromkeys(['dists', 'rows', 'inputsChecked', 'noOtherStores', 'result'], False)
+	try:
+		tree = ast.parse((repo / 'src' / 'gambit' / 'query.py').read_text())
+		q = next(st for st in tree.body if isinstance(st, ast.FunctionDef) and st.name == 'query')
+	except Exception:
+		return f
+	body = _body(q)
+	texts = [ast.unparse(st) for st in body]
+	d = [st for st in body if isinstance(st, ast.Assign) and ast.unparse(st.targets[0]) == 'dmat']
+	if len(d) == 1 and isinstance(d[0].value, ast.Call):
+		c = d[0].value
+		kws = {k.arg: ast.unparse(k.value) for k in c.keywords}
+		f['dists'] = (ast.unparse(c.func) == 'jaccarddist_matrix' and [ast.unparse(a) for a in c.args] == ['queries', 'db.signatures']
+		              and kws.get('ref_indices') == 'db.sig_indices' and kws.get('chunksize') == 'params.chunksize' and set(kws) <= {'ref_indices', 'chunksize', 'progress'})
+	w = [st for st in body if isinstance(st, ast.With)]
+	if len(w) == 1 and len(w[0].items) == 1 and ast.unparse(w[0].items[0].context_expr).startswith('iter_progress(inputs, ') and ast.unparse(w[0].items[0].optional_vars) == 'inputs_iter':
+		f['rows'] = [ast.unparse(st) for st in w[0].body] == ['items = [get_result_item(db, params, dmat[i, :], input) for (i, input) in enumerate(inputs_iter)]'] \
+			or [ast.unparse(st) for st in w[0].body] == ['items = [get_result_item(db, params, dmat[i, :], input) for i, input in enumerate(inputs_iter)]']
+	chk = next((st for st in body if isinstance(st, ast.If) and ast.unparse(st.test) == 'inputs is not None'), None)
+	if chk is not None:
+		inner = [ast.unparse(st) for st in chk.body]
+		f['inputsChecked'] = (inner[:1] == ['inputs = list(map(QueryInput.convert, inputs))'] and len(chk.body) == 2 and isinstance(chk.body[1], ast.If)
+		                      and ast.unparse(chk.body[1].test) == 'len(inputs) != len(queries)' and isinstance(chk.body[1].body[-1], ast.Raise)
+		                      and [ast.unparse(st) for st in chk.orelse] == ['inputs = [QueryInput(str(i + 1)) for i in range(len(queries))]'])
+	stores = {}
+	for x in ast.walk(q):
+		if isinstance(x, ast.Name) and isinstance(x.ctx, ast.Store):
+			stores[x.id] = stores.get(x.id, 0) + 1
+	f['noOtherStores'] = stores.get('dmat') == 1 and stores.get('items') == 1 and stores.get('queries') == 1 and stores.get('inputs') == 2
+	last = body[-1]
+	if isinstance(last, ast.Return) and isinstance(last.value, ast.Call) and ast.unparse(last.value.func) == 'QueryResults':
+		kws = {k.arg: ast.unparse(k.value) for k in last.value.keywords}
+		f['result'] = not last.value.args and kws == {'items': 'items', 'params': 'params', 'genomeset': 'db.genomeset', 'signaturesmeta': 'db.signatures.meta'}
+	return f
+
+
 def dist_flow_facts(repo: Path) -> dict:
 	"""`gambit dist`: which labels go with which signatures, which distance function fills the matrix, how the CSV is laid out.
 	Each fact is the presence of one statement in one place, compared as normalised text (ast.unparse), plus the absence of any other
@@ -556,6 +594,21 @@ def regenerate(repo: Path, out_dir: Path) -> dict:
 		dp.write_text(dtext)
 	report['modules']['PyDistFlow'] = hashlib.sha1(dtext.encode()).hexdigest()[:12]
 	report['functions'].append('cli/dist.py dist_cmd, cluster.py dump_dmat_csv (data flow and CSV layout, structural facts)')
+	# --- src/gambit/query.py: which distances a result item is made of ------------------------------------------------------------------------
+	qf = query_flow_facts(repo)
+	QDOC = {'dists': 'the distance matrix is `jaccarddist_matrix(queries, db.signatures, ref_indices=db.sig_indices, chunksize=params.chunksize)`: column j is the reference genome j of the database, through the index the loader paired it with',
+	        'rows': 'result item i is `get_result_item(db, params, dmat[i, :], input_i)`: the i-th row of distances with the i-th input',
+	        'inputsChecked': 'given inputs are converted one by one and must be as many as the queries; otherwise they are numbered 1, 2, …',
+	        'noOtherStores': 'the matrix, the items, the queries and the inputs are assigned nowhere else in the function',
+	        'result': 'the items are returned as they are, with the parameters, the genome set and the signatures\' metadata of this database'}
+	qtext = ('/-\nGENERATED by harness/pytrace.py from src/gambit/query.py — do not edit.\n'
+	         'Regenerated at the start of every check; `GambitV.Tie.PyQueryFlow` proves them.\n-/\nnamespace GambitV.Gen\n\n'
+	         + ''.join(f'/-- {QDOC[k]} -/\ndef pyQuery_{k} : Bool := {b(v)}\n' for k, v in qf.items()) + '\nend GambitV.Gen\n')
+	qp = out_dir / 'PyQueryFlow.lean'
+	if not qp.exists() or qp.read_text() != qtext:
+		qp.write_text(qtext)
+	report['modules']['PyQueryFlow'] = hashlib.sha1(qtext.encode()).hexdigest()[:12]
+	report['functions'].append('query.py query (which distances a result item is made of, structural facts)')
 	# --- which compiled functions the public names are ---------------------------------------------------------------------------------------
 	bf = binding_facts(repo)
 	BDOC = {'seqRevcomp': '`gambit.seq.revcomp` is `gambit._cython.kmers.revcomp` itself (imported at module level, bound by nothing else)',
